@@ -1236,11 +1236,21 @@ rrul_fill_mly(echs_instant_t *restrict tgt, size_t nti, rrulsp_t rr)
 	}
 
 	with (int tmp) {
+		const int bdayp = echs_shift_bday_p(rr->shift);
+
 		tmp = echs_shift_dvalue(rr->shift) +
 			echs_shift_bvalue(rr->shift) * 7 / 5;
 
-		m -= tmp-- > 0;
-		m -= tmp / 30;
+		if (tmp > 0 || bdayp && !echs_shift_neg_p(rr->shift)) {
+			/* dates move forward into our month, 0B does that too,
+			 * step back at least as many months as the shift
+			 * can span (short months, a weekend to cross) */
+			m -= 1 + (tmp + 3 * bdayp) / 28;
+		} else if (tmp < 0) {
+			/* dates move backward, skip no more months than
+			 * the shift is sure to span */
+			m += -tmp / 31;
+		}
 		/* bring the month back into the year */
 		for (; m <= 0; m += 12, y--);
 		for (; m > 12; m -= 12, y++);
